@@ -5,7 +5,7 @@ V = os.path.dirname(os.path.dirname(os.path.abspath(__file__)))
 MC_NOTE = "assumptions A1-A3 of DESIGN §4 (library code takes zero virtual time, SC interleavings at visible operations, harness-enumerated network); FIFO channel/mutex queues; sources rewritten mechanically by mcgen from /repo's working tree at check time"
 EN_NOTE = "trusted base: the reference models/oracles under /verif/enum (written from the property text and the KNX formats, DESIGN Appendix B/C) and the Go toolchain; bounded by the enumerated spaces listed in the evidence file"
 MC_TECH = "stateless model checking (controlled scheduler, deviation-bounded DFS over the real code)"
-EN_TECH = "bounded exhaustive enumeration of the input space against a reference model (explicit-state exploration of all cases within stated bounds)"
+EN_TECH = "bounded exhaustive enumeration of the input space against a reference model (explicit-state exploration of all cases within stated bounds), plus stateless model checking of concurrent callers of the same code under the controlled scheduler (mc engine)"
 # id -> (engine, category, text) ; absent ids go to not_applicable with the reason in NA
 CLAIMED = {}
 NA = {}
@@ -22,7 +22,7 @@ for p in props:
                        "engine": eng, "level_claimed": {"category": cat, "text": text, "design_ref": f"DESIGN.md §5 {p}"},
                        "level_note": note, "technique": tech})
 na = [{"property_id": p, "reason": NA.get(p, "check not yet built in this session (planned: DESIGN.md §5); not claimed")} for p in props if p not in CLAIMED]
-mcprops = [p for p in props if p in CLAIMED and CLAIMED[p][0] == "mc"]
+mcprops = [p for p in props if p in CLAIMED and (CLAIMED[p][0] == "mc" or p in ("C01", "C02", "C06", "C07", "C08", "C11", "C15", "C18", "C19"))]
 enprops = [p for p in props if p in CLAIMED and CLAIMED[p][0] == "enum"]
 m = {"version": 1, "setup_cmd": "cd /verif && ./setup.sh",
      "hooks": {"guard": "verif (overlay-only: /repo carries no hook code; rewritten sources, hook constructors and the controlled runtime are mapped in with go build -overlay and every harness file is tagged //go:build verif)",
